@@ -19,6 +19,7 @@ import (
 	"path/filepath"
 	"regexp"
 	"runtime"
+	"runtime/pprof"
 	"sort"
 	"strconv"
 	"strings"
@@ -121,6 +122,8 @@ func Main(props ...Property) {
 		procs   = flag.Int("procs", 0, "worker processes (default: number of CPUs)")
 		noEvid  = flag.Bool("no-evidence", false, "do not write the evidence file (debugging)")
 		verbose = flag.Bool("v", false, "print per-case results")
+		one     = flag.Int("one", -1, "run this single case in-process (profiling / debugging)")
+		prof    = flag.String("cpuprofile", "", "write a CPU profile (with -one)")
 	)
 	flag.Parse()
 	var p *Property
@@ -161,6 +164,19 @@ func Main(props ...Property) {
 	}
 	if *worker {
 		runWorker(p, *tier, budget())
+		return
+	}
+	if *one >= 0 {
+		if *prof != "" {
+			f, _ := os.Create(*prof)
+			pprof.StartCPUProfile(f)
+			defer pprof.StopCPUProfile()
+		}
+		t0 := time.Now()
+		r := p.Run(*tier, *one, t0.Add(budget()))
+		r.Sample, r.Counters = nil, nil
+		b, _ := json.Marshal(r)
+		fmt.Printf("%s\n%.2fs\n", b, time.Since(t0).Seconds())
 		return
 	}
 	os.Exit(master(p, *tier, n, name, *only, *procs, *noEvid, *verbose))
